@@ -73,8 +73,10 @@ def all_nodes(g: Graph) -> list[Node]:
 class GraphSpec:
     """nodes: list of dicts {name, payload, outputs (None=default | list)}; edges: (src idx, src output, dst idx, input name)"""
 
-    def __init__(self, nodes: list[dict], edges: list[tuple], tag: str = ""):
-        self.nodes, self.edges, self.tag = nodes, edges, tag
+    def __init__(self, nodes: list[dict], edges: list[tuple], tag: str = "", sinks: str | None = None):
+        # sinks: None = exactly the nodes nobody consumes; "overlap" = what `g1 + g2` gives when g2 extends g1: the sink
+        # list also names interior nodes (before their descendants) and one sink twice
+        self.nodes, self.edges, self.tag, self.sinks_mode = nodes, edges, tag, sinks
 
     def build(self) -> tuple[Graph, list[Node]]:
         objs: list[Node] = []
@@ -86,14 +88,19 @@ class GraphSpec:
             objs.append(Node(nd["name"], nd["outputs"], nd["payload"], **ins))
         consumed = {s for (s, _, _, _) in self.edges}
         sinks = [o for i, o in enumerate(objs) if i not in consumed]
+        if self.sinks_mode == "overlap":
+            sinks = [o for i, o in enumerate(objs) if i in consumed] + sinks + sinks[:1]
         return Graph(sinks), objs
 
     def describe(self) -> dict:
-        return {"tag": self.tag, "nodes": self.nodes, "edges": [list(e) for e in self.edges]}
+        d = {"tag": self.tag, "nodes": self.nodes, "edges": [list(e) for e in self.edges]}
+        if self.sinks_mode:
+            d["sinks"] = self.sinks_mode
+        return d
 
     @staticmethod
     def from_json(d: dict) -> "GraphSpec":
-        return GraphSpec([dict(n) for n in d["nodes"]], [tuple(e) for e in d["edges"]], d.get("tag", ""))
+        return GraphSpec([dict(n) for n in d["nodes"]], [tuple(e) for e in d["edges"]], d.get("tag", ""), d.get("sinks"))
 
 
 PAYLOAD_PATTERNS = {
@@ -139,7 +146,9 @@ def dag_specs(n: int, names: str = "unique", payloads=tuple(PAYLOAD_PATTERNS), o
             for op in outputs:
                 nodes = []
                 for i in range(n):
-                    if op == "multi" and i in has_child:
+                    if op == "single-named" and i in has_child:
+                        outs = [out_names[0]]  # one output, but not the default name
+                    elif op == "multi" and i in has_child:
                         outs = list(out_names)
                     elif op == "terminal-none" and i not in has_child:
                         outs = []
